@@ -121,7 +121,26 @@ def area2d(pts):
                    for i in range(len(pts)))) / 2 if len(pts) >= 3 else F(0)
 
 
-def box_faces(A, B, C):
+def box_faces(A, B, C, triangulated=False, diag=0, perm=None, roll=0):
+    """The six sides of the box [0,A]x[0,B]x[0,C]; optionally every side split into two
+    triangles (coplanar neighbouring sides; diag: bit k chooses the diagonal of side k), the
+    sides listed in the order perm, vertex lists rolled by roll."""
+    quads = _box_quads(A, B, C)
+    sides = []
+    for k, q in enumerate(quads):
+        if triangulated:
+            i = [0, 1, 2, 3] if not (diag >> k) & 1 else [1, 2, 3, 0]
+            sides.append(q[:, [i[0], i[1], i[2]]])
+            sides.append(q[:, [i[0], i[2], i[3]]])
+        else:
+            sides.append(q)
+    sides = [np.roll(sd, roll % sd.shape[1], axis=1).copy() for sd in sides]
+    if perm is not None:
+        sides = [sides[i] for i in perm]
+    return sides
+
+
+def _box_quads(A, B, C):
     a, b, c = float(A), float(B), float(C)
     west = np.array([[0, 0, 0, 0], [0, b, b, 0], [0, 0, c, c]], dtype=float)
     east = np.array([[a, a, a, a], [0, b, b, 0], [0, 0, c, c]], dtype=float)
@@ -208,11 +227,15 @@ class C44(Prop):
     technique = ("Coq proof (interval invariant of Cyrus-Beck by induction over the half-plane list, "
                  "linear rational arithmetic; list reasoning for the shapely glue) + vm_compute "
                  "execution correspondence in Q + exact-fractions oracle")
-    rule = ("random convex integer polygons (hull of 4-9 points in [-8,8]^2), star-shaped non-convex "
+    rule = ("random convex integer polygons (hull of 4-9 points in [-8,8]^2), convex polygons with one "
+            "reentrant corner, star-shaped non-convex "
             "integer polygons (16 fixed directions, random radii) and fixed L/U/W shapes; 1-6 "
-            "segments per case with integer end points: random, through polygon vertices, along "
+            "segments per case with integer end points (vertex lists start at a random vertex, so a "
+            "reentrant corner is first/last as often as anywhere): random, through polygon vertices, along "
             "polygon edges, degenerate, fully inside; one integer tag row; 25% polyhedron cases "
-            "(box x triangle/parallelogram with odd/16 coordinates); non-trivial = some segment is "
+            "(box x triangle/parallelogram with odd/16 coordinates; 60% of the boxes as triangulated "
+            "surfaces = coplanar neighbouring sides with random diagonals, sides in random order, "
+            "polygons large enough to cut several sides); non-trivial = some segment is "
             "cut (a piece differs from its segment) or a polygon is cut by the box; distinct by "
             "(case, output)")
     trusted = ["shapely's answers are captured by calling the same shapely methods on the same "
@@ -226,6 +249,11 @@ class C44(Prop):
 
     # ------------------------------------------------------------------ generator
     def _polygon(self, rng):
+        kind, vs = self._polygon0(rng)
+        k = rng.randrange(len(vs))      # every vertex (also a reentrant one) gets to be first/last
+        return kind, vs[k:] + vs[:k]
+
+    def _polygon0(self, rng):
         r = rng.random()
         if r < 0.45:
             while True:
@@ -233,6 +261,20 @@ class C44(Prop):
                 h = convex_hull(pts)
                 if len(h) >= 3:
                     return "convex", [list(p) for p in h]
+        if r < 0.60:
+            # a convex polygon with ONE reentrant corner: vertex (a + b + 2c)/4 inserted between
+            # the neighbours a, b (c another hull vertex); coordinates are multiples of 4
+            while True:
+                pts = [(4 * rng.randint(-4, 4), 4 * rng.randint(-4, 4)) for _ in range(rng.randint(4, 8))]
+                h = convex_hull(pts)
+                if len(h) >= 4:
+                    break
+            i = rng.randrange(len(h))
+            a, b = h[i], h[(i + 1) % len(h)]
+            c = h[(i + 1 + rng.randint(1, len(h) - 2)) % len(h)]
+            dent = ((a[0] + b[0] + 2 * c[0]) // 4, (a[1] + b[1] + 2 * c[1]) // 4)
+            vs = [list(q) for q in h[:i + 1]] + [list(dent)] + [list(q) for q in h[i + 1:]]
+            return "dent", vs
         if r < 0.85:
             k = rng.choice([1, 2])
             dirs = DIRS[::k]
@@ -277,8 +319,26 @@ class C44(Prop):
                 p0 = [od(-1, 3), od(-1, 3), od(-1, 3)]
                 u = [2 * rng.randint(-24, 24) for _ in range(3)]
                 v = [2 * rng.randint(-24, 24) for _ in range(3)]
-                yield {"kind": "polyhedron", "box": [A, B, C], "p0": p0, "u": u, "v": v,
-                       "tri": rng.random() < 0.5}
+                case = {"kind": "polyhedron", "box": [A, B, C], "p0": p0, "u": u, "v": v,
+                        "tri": rng.random() < 0.5}
+                if rng.random() < 0.6:
+                    # the box as a triangulated surface (coplanar neighbouring sides: clipped
+                    # polygons get hanging nodes), sides in random order
+                    case["tri_box"] = True
+                    case["diag"] = rng.randrange(64)
+                    perm = list(range(12))
+                    rng.shuffle(perm)
+                    case["perm"] = perm
+                    case["roll"] = rng.randrange(3)
+                    if rng.random() < 0.6:   # large polygons cutting several sides
+                        case["u"] = [2 * rng.randint(-60, 60) for _ in range(3)]
+                        case["v"] = [2 * rng.randint(-60, 60) for _ in range(3)]
+                elif rng.random() < 0.5:
+                    perm = list(range(6))
+                    rng.shuffle(perm)
+                    case["perm"] = perm
+                    case["roll"] = rng.randrange(4)
+                yield case
                 continue
             kind, poly = self._polygon(rng)
             segs = [self._segment(rng, poly) for _ in range(rng.randint(1, 6))]
@@ -306,8 +366,12 @@ class C44(Prop):
                 self.stats["polyhedron_degenerate"] = self.stats.get("polyhedron_degenerate", 0) + 1
                 return {"skipped": True}
             poly = np.array([[float(x) for x in p] for p in vs]).T
-            out, inds = constrain_geometry.polygons_by_polyhedron(poly, box_faces(*case["box"]))
-            self.stats["polyhedron"] = self.stats.get("polyhedron", 0) + 1
+            faces = box_faces(*case["box"], triangulated=case.get("tri_box", False),
+                              diag=case.get("diag", 0), perm=case.get("perm"),
+                              roll=case.get("roll", 0))
+            out, inds = constrain_geometry.polygons_by_polyhedron(poly, faces)
+            k = "polyhedron_triangulated" if case.get("tri_box") else "polyhedron"
+            self.stats[k] = self.stats.get(k, 0) + 1
             return {"skipped": False, "polys": [p.T.tolist() for p in out],
                     "inds": [int(i) for i in inds]}
         import shapely.geometry as sg
